@@ -18,6 +18,7 @@ import (
 	"google.golang.org/grpc/backoff"
 	"google.golang.org/grpc/credentials"
 	"google.golang.org/grpc/credentials/insecure"
+	"google.golang.org/grpc/peer"
 )
 
 // Payload is the deterministic byte stream for a nonce: every byte value
@@ -262,6 +263,7 @@ type DialRes struct {
 	Msg     string `json:"msg,omitempty"`
 	DialMs  int64  `json:"dialMs"`
 	PingMs  int64  `json:"pingMs"`
+	Auth    string `json:"auth,omitempty"` // tls | none: how the connection is secured (dialling side's view)
 
 	conn *grpc.ClientConn
 }
@@ -283,12 +285,12 @@ func GRPCDialPing(b *plugin.GRPCBroker, id uint32, timeout time.Duration, closeA
 		return r
 	}
 	r.conn = conn
-	msg, err := PingConn(conn, timeout)
+	msg, auth, err := PingConnAuth(conn, timeout)
 	r.PingMs = time.Since(t0).Milliseconds() - r.DialMs
 	if err != nil {
 		r.PingErr = err.Error()
 	}
-	r.Msg = msg
+	r.Msg, r.Auth = msg, auth
 	if closeAfter {
 		conn.Close()
 		r.conn = nil
@@ -357,13 +359,25 @@ func GRPCDialPingShort(b *plugin.GRPCBroker, id uint32, timeout time.Duration) *
 }
 
 func PingConn(conn *grpc.ClientConn, timeout time.Duration, opts ...grpc.CallOption) (string, error) {
+	msg, _, err := PingConnAuth(conn, timeout, opts...)
+	return msg, err
+}
+
+// PingConnAuth also reports how the connection the call travelled on is secured, as the dialling side sees
+// it: "tls" or "none".
+func PingConnAuth(conn *grpc.ClientConn, timeout time.Duration, opts ...grpc.CallOption) (string, string, error) {
 	ctx, cancel := context.WithTimeout(context.Background(), timeout)
 	defer cancel()
-	resp, err := grpctest.NewPingPongClient(conn).Ping(ctx, &grpctest.PingRequest{}, opts...)
+	var pr peer.Peer
+	resp, err := grpctest.NewPingPongClient(conn).Ping(ctx, &grpctest.PingRequest{}, append(opts, grpc.Peer(&pr))...)
 	if err != nil {
-		return "", err
+		return "", "", err
 	}
-	return resp.Msg, nil
+	auth := "none"
+	if _, ok := pr.AuthInfo.(credentials.TLSInfo); ok {
+		auth = "tls"
+	}
+	return resp.Msg, auth, nil
 }
 
 var _ net.Conn // keep import when trimmed
